@@ -511,18 +511,22 @@ impl<T> AtomicBucket<T> {
         // will see it as empty until another write proceeds.
         let guard = &epoch_pin();
         let mut block_ptr = self.tail.load(Ordering::Acquire, guard);
-        if !block_ptr.is_null()
-            && self
-                .tail
-                .compare_exchange(
-                    block_ptr,
-                    Shared::null(),
-                    Ordering::SeqCst,
-                    Ordering::SeqCst,
-                    guard,
-                )
-                .is_ok()
-        {
+        // Detach whatever the tail is by the time the swap succeeds: if a writer installs a new
+        // block between our load and the swap, retry with that block instead of giving up, or
+        // this call would clear (and hand to `f`) nothing although the bucket holds values.
+        while !block_ptr.is_null() {
+            match self.tail.compare_exchange(
+                block_ptr,
+                Shared::null(),
+                Ordering::SeqCst,
+                Ordering::SeqCst,
+                guard,
+            ) {
+                Ok(_) => break,
+                Err(e) => block_ptr = e.current,
+            }
+        }
+        if !block_ptr.is_null() {
             let backoff = Backoff::new();
             let mut freeable_blocks = Vec::new();
 
